@@ -216,9 +216,34 @@ macro_rules! gen_for {
 gen_for!(gen64, u64, 64, 9);
 gen_for!(gen128, u128, 128, 20);
 
+/// Fixed replays of the known findings through the real code (DESIGN.md section 7, C02).
+fn witnesses() {
+    let params = FeeParams::<u64>::builder()
+        .positive_impact_fee_factor(1_500_000_000)
+        .negative_impact_fee_factor(500_000_000)
+        .fee_receiver_factor(0)
+        .build();
+    let pr = Price { min: 1u64, max: 1u64 };
+    let size = 1_000_000u64;
+    let r = params.base_position_fees::<9>(&pr, &size, BalanceChange::Improved);
+    let rs = match &r {
+        Ok(f) => format!("(Ok ({}, {}, {}))", z(f.order_fees().fee_amounts().fee_amount_for_pool()),
+                         z(f.order_fees().fee_amounts().fee_amount_for_receiver()), z(f.order_fees().fee_value())),
+        Err(e) => format!("(Err {})", err_code(e)),
+    };
+    emit("witness/order-fee-150pct", &format!("COrder 64 9 (MkFP 1500000000 500000000 0 None) 1 1 {} Improved {rs}", z(size)));
+    let r = params.apply_fees::<9>(BalanceChange::Improved, &size);
+    let rs = match &r {
+        Some((n, fees)) => format!("(Some ({}, {}, {}))", z(n), z(fees.fee_amount_for_pool()), z(fees.fee_amount_for_receiver())),
+        None => "None".to_string(),
+    };
+    emit("witness/apply-fees-150pct", &format!("CApply 64 9 (MkFP 1500000000 500000000 0 None) Improved {} {rs}", z(size)));
+}
+
 fn main() {
     let a = args();
     let mut rng = Rng::new(a.seed);
+    witnesses();
     for i in 0..a.n {
         let kind = (i as u64) % 7;
         if rng.chance(1, 2) { gen64(&mut rng, kind) } else { gen128(&mut rng, kind) }
